@@ -96,6 +96,11 @@ func streamC19(c *Ctx) {
 				opLine("import", J{"coll": hx("n4"), "raw": "[null]"}), J{"k": "dump"},
 				opLine("import", J{"coll": hx("n5"), "raw": "[{\"_id\":\"not-a-uuid\",\"a\":1}]"}), J{"k": "dump"},
 				opLine("import", J{"coll": hx("n6"), "raw": fmt.Sprintf("[{\"_id\":%q,\"a\":1},{\"_id\":%q,\"a\":2}]", fixedId(7), fixedId(7))}), J{"k": "dump"},
+				// ill-formed exactly at an element boundary: cut after a complete document, closed by the wrong delimiter, a comma and nothing
+				opLine("import", J{"coll": hx("n8"), "raw": fmt.Sprintf("[{\"_id\":%q,\"a\":1},{\"_id\":%q,\"a\":2}", fixedId(21), fixedId(22))}), J{"k": "dump"},
+				opLine("import", J{"coll": hx("n9"), "raw": fmt.Sprintf("[{\"_id\":%q,\"a\":1}}", fixedId(23))}), J{"k": "dump"},
+				opLine("import", J{"coll": hx("n10"), "raw": fmt.Sprintf("[{\"_id\":%q,\"a\":1},", fixedId(24))}), J{"k": "dump"},
+				opLine("import", J{"coll": hx("n11"), "raw": "["}), J{"k": "dump"},
 				opLine("import", J{"coll": hx("n7"), "raw": fmt.Sprintf("[{\"_id\":%q,\"a\":1.5,\"s\":\"x\",\"l\":[1,null,{\"k\":true}]}]", fixedId(8))}), J{"k": "dump"},
 				opLine("findAll", J{"q": J{"coll": hx("n7")}}),
 				opLine("export", J{"coll": hx("missing"), "file": "f2"}),
